@@ -154,5 +154,101 @@ pub proof fn lemma_one_child_post(m: &naga::Module, v0: Set<naga::Handle<naga::T
     }
 }
 
+// ---------------- the same argument packaged so that the body of add_types_recursive needs no hint inside its match arms ----------------
+// (a proof whose hints sit around individual calls is lost when an arm is merged, split or re-bracketed; these facts are stated once,
+//  before and after the match, with triggers that fire on the obligations of the recursive calls)
+// the state in which a not yet seen type t is entered
+pub open spec fn entered(m: &naga::Module, v0: Set<naga::Handle<naga::Type>>, t: int) -> bool {
+    types_wf(m) && 0 <= t < ntypes(m) && closed_upto(m, v0, t) && !seen(v0, t)
+}
+// what holds of the set while t is in progress: it grew from v0, holds t, everything new is reachable from t,
+// and every new type other than t is finished (its contents are in the set)
+pub open spec fn frame(m: &naga::Module, v0: Set<naga::Handle<naga::Type>>, v: Set<naga::Handle<naga::Type>>, t: int) -> bool {
+    &&& smono(v0, v) && seen(v, t)
+    &&& forall|d: int| #[trigger] seen(v, d) && !seen(v0, d) ==> reach(m, t, d)
+    &&& forall|a: int, b: int| seen(v, a) && !seen(v0, a) && a != t && #[trigger] edge(m, a, b) ==> seen(v, b)
+}
+// every directly contained type of t has been closed over
+pub open spec fn children_done(m: &naga::Module, v: Set<naga::Handle<naga::Type>>, t: int) -> bool {
+    forall|c: int| #[trigger] edge(m, t, c) ==> all_reached(m, v, c)
+}
+// the precondition of a call for type c in state v: c is in the arena, and every finished type at or below c already has its
+// contents in the set (in-progress ancestors have larger handles)
+pub open spec fn type_call_ok(m: &naga::Module, v: Set<naga::Handle<naga::Type>>, c: int) -> bool {
+    0 <= c < ntypes(m) && closed_upto(m, v, c)
+}
+// the precondition of the recursive call for ANY directly contained type c of t, in ANY in-progress state v
+pub open spec fn child_ready(m: &naga::Module, v0: Set<naga::Handle<naga::Type>>, t: int) -> bool {
+    forall|v: Set<naga::Handle<naga::Type>>, c: int| frame(m, v0, v, t) && edge(m, t, c) ==> #[trigger] type_call_ok(m, v, c) && 0 <= c < t
+}
+pub proof fn lemma_child_ready(m: &naga::Module, v0: Set<naga::Handle<naga::Type>>, t: int)
+    requires entered(m, v0, t),
+    ensures child_ready(m, v0, t),
+{
+    assert forall|v: Set<naga::Handle<naga::Type>>, c: int| frame(m, v0, v, t) && edge(m, t, c) implies #[trigger] type_call_ok(m, v, c) && 0 <= c < t by {
+        lemma_child_pre(m, v0, v, t, c);
+    }
+}
+pub proof fn lemma_enter(m: &naga::Module, v0: Set<naga::Handle<naga::Type>>, v1: Set<naga::Handle<naga::Type>>, t: int)
+    requires types_wf(m), 0 <= t < ntypes(m), closed_upto(m, v0, t), !seen(v0, t), v1 =~= v0.insert(mk_handle(t)),
+    ensures entered(m, v0, t), frame(m, v0, v1, t), unseen(m, v1) < unseen(m, v0), child_ready(m, v0, t),
+{
+    lemma_unseen_insert(m, v0, t);
+    axiom_mk_handle_idx::<naga::Type>(t);
+    assert forall|d: int| seen(v1, d) implies seen(v0, d) || d == t by { axiom_mk_handle_idx::<naga::Type>(d); }
+    assert(reach(m, t, t));
+    lemma_child_ready(m, v0, t);
+}
+// bookkeeping after the recursive call for the directly contained type c
+pub proof fn lemma_frame_step(m: &naga::Module, v0: Set<naga::Handle<naga::Type>>, vk: Set<naga::Handle<naga::Type>>, v2: Set<naga::Handle<naga::Type>>, t: int, c: int)
+    requires entered(m, v0, t), frame(m, v0, vk, t), edge(m, t, c), smono(vk, v2), new_reached(m, vk, v2, c), new_closed(m, vk, v2),
+    ensures frame(m, v0, v2, t),
+{
+    lemma_child_post(m, v0, vk, v2, t, c);
+    assert(seen(vk, t));
+}
+// the same as an implication, for use after the match without knowing which arm ran: whichever directly contained type c was
+// descended into from state vk, the frame is re-established
+pub proof fn lemma_frame_step_if(m: &naga::Module, v0: Set<naga::Handle<naga::Type>>, vk: Set<naga::Handle<naga::Type>>, v2: Set<naga::Handle<naga::Type>>, t: int, c: int)
+    ensures entered(m, v0, t) && frame(m, v0, vk, t) && edge(m, t, c) && smono(vk, v2) && new_reached(m, vk, v2, c) && new_closed(m, vk, v2) ==> frame(m, v0, v2, t),
+{
+    if entered(m, v0, t) && frame(m, v0, vk, t) && edge(m, t, c) && smono(vk, v2) && new_reached(m, vk, v2, c) && new_closed(m, vk, v2) {
+        lemma_frame_step(m, v0, vk, v2, t, c);
+    }
+}
+// the directly contained type of a pointer / array / binding array
+pub open spec fn single_child(m: &naga::Module, t: int) -> Option<int> {
+    match ty_at(m, t).inner {
+        naga::TypeInner::Pointer { base, .. } => Some(handle_index(base)),
+        naga::TypeInner::Array { base, .. } => Some(handle_index(base)),
+        naga::TypeInner::BindingArray { base, .. } => Some(handle_index(base)),
+        _ => None,
+    }
+}
+// leaving t: the four postconditions follow from the frame and "every directly contained type is closed over"
+pub proof fn lemma_leave(m: &naga::Module, v0: Set<naga::Handle<naga::Type>>, vf: Set<naga::Handle<naga::Type>>, t: int)
+    ensures entered(m, v0, t) && frame(m, v0, vf, t) && children_done(m, vf, t)
+        ==> smono(v0, vf) && all_reached(m, vf, t) && new_reached(m, v0, vf, t) && new_closed(m, v0, vf),
+{
+    if entered(m, v0, t) && frame(m, v0, vf, t) && children_done(m, vf, t) {
+        assert forall|d: int| #[trigger] reach(m, t, d) implies seen(vf, d) by {
+            if d != t {
+                let c = choose|c: int| 0 <= c < t && #[trigger] edge(m, t, c) && reach(m, c, d);
+                assert(all_reached(m, vf, c));
+            }
+        }
+        assert forall|a: int, b: int| seen(vf, a) && !seen(v0, a) && #[trigger] edge(m, a, b) implies seen(vf, b) by {
+            if a == t { assert(all_reached(m, vf, b)); assert(0 <= b < t); assert(reach(m, b, b)); }
+        }
+    }
+}
+// the type was in the set already: everything it reaches is there (it is finished or an in-progress ancestor cannot be below it)
+pub proof fn lemma_seen_already(m: &naga::Module, v0: Set<naga::Handle<naga::Type>>, t: int)
+    requires types_wf(m), closed_upto(m, v0, t), seen(v0, t),
+    ensures all_reached(m, v0, t),
+{
+    assert forall|d: int| #[trigger] reach(m, t, d) implies seen(v0, d) by { lemma_closed_reach(m, v0, t, t, d); }
+}
+
 
 } // verus!
